@@ -151,6 +151,11 @@ def main(chk, args):
     #    proceed in the background while cases are emitted and executed.
     mc = [bg.submit(tlc.run, 'Routing', 'Routing.small.cfg' if quick else 'Routing.full.cfg', deadlock=False,
                     timeout=2400, workers=8)]
+    if not quick:
+        mc.append(bg.submit(tlc.run, 'Routing', 'Routing.small.cfg', deadlock=False, timeout=2400, workers=4))
+        # beyond the exhaustive bounds: seeded simulation of the large scope (0..4 parameters, 1..3 variables)
+        mc += [bg.submit(tlc.run, 'Routing', 'Routing.sim.cfg', deadlock=False, timeout=2400, workers=1, simulate=2500,
+                         depth=500, seed=chk.seed * 1000 + 91 + k) for k in range(3)]
     # (mutants: seeded simulation of the small scope with 6 requests per rule finds each of them within seconds)
     base_cfg = open(os.path.join(tlc.SPEC, 'Routing.small.cfg')).read().replace('MaxCalls = 1', 'MaxCalls = 6')
     muts = {m: bg.submit(tlc.run, 'Routing', base_cfg.replace('Mutant = "none"', f'Mutant = "{m}"'), deadlock=False,
@@ -328,8 +333,8 @@ def main(chk, args):
         chk.violation(key, (f'[{n} failing cases] ' if n > 1 else '') + summary, replay)
 
     # 6. the background TLC runs
-    r = mc[0].result()
-    chk.add_tlc(r, 'Routing model check (' + ('small' if quick else 'full') + ')')
+    for f, label in zip(mc, ['small'] if quick else ['full', 'small', 'simulate large', 'simulate large', 'simulate large']):
+        chk.add_tlc(f.result(), f'Routing model check ({label})')
     for m, f in muts.items():
         rm = f.result()
         chk.add_tlc(rm, f'spec mutant {m} (must be rejected)', require_ok=False)
